@@ -114,13 +114,14 @@ def t_str(a):
 class Int:
     """Abstract integer of width w.  Either concrete (val is an int, bits None) or symbolic
     (bits is a tuple of w terms, LSB first)."""
-    __slots__ = ("w", "signed", "val", "bits", "tags", "kind")
+    __slots__ = ("w", "signed", "val", "bits", "tags", "kind", "aff")
 
-    def __init__(self, w, signed=False, val=None, bits=None, tags=frozenset(), kind="int"):
+    def __init__(self, w, signed=False, val=None, bits=None, tags=frozenset(), kind="int", aff=None):
         self.w = w
         self.signed = signed
         self.tags = tags
         self.kind = kind  # int | bool | char
+        self.aff = aff    # affine form over named atoms: (tuple of (atom, coef), const) — only meaningful for non-concrete values
         if bits is not None:
             # normalise to concrete if all bits constant
             v = 0
@@ -183,6 +184,8 @@ class Int:
             if self.kind == "bool":
                 return "true" if self.val else "false"
             return "%d_%s%d" % (self.sval(), "i" if self.signed else "u", self.w)
+        if self.aff is not None:
+            return "<%s>" % aff_str(self.aff)
         return "sym%s%d[%s]" % ("i" if self.signed else "u", self.w,
                                 ",".join(t_str(b) for b in reversed(self.bits)))
 
@@ -212,8 +215,91 @@ class UB(Exception):
     pass
 
 
+# ---- affine forms -------------------------------------------------------------------------------
+
+def aff_of(x):
+    """(dict atom->coef, const) of an Int, or None if it has no affine description"""
+    if x.is_conc():
+        return ({}, x.sval() if x.signed else x.val)
+    if x.aff is None:
+        return None
+    return (dict(x.aff[0]), x.aff[1])
+
+
+def aff_pack(d, c):
+    d = {k: v for k, v in d.items() if v != 0}
+    return (tuple(sorted(d.items())), c)
+
+
+def aff_str(af):
+    if af is None:
+        return "?"
+    d, c = (dict(af[0]), af[1]) if isinstance(af[0], tuple) else af
+    parts = []
+    for k, v in sorted(d.items()):
+        if v == 1:
+            parts.append("+" + k)
+        elif v == -1:
+            parts.append("-" + k)
+        else:
+            parts.append("%+d*%s" % (v, k))
+    if c or not parts:
+        parts.append("%+d" % c)
+    s = "".join(parts)
+    return s[1:] if s.startswith("+") else s
+
+
+def atom_int(w, name, signed=False, tags=frozenset()):
+    """an unknown integer described by a named atom"""
+    return Int(w, signed, bits=[TOP] * w, tags=tags, aff=(((name, 1),), 0))
+
+
+def aff_int(w, d, c, signed=False, tags=frozenset()):
+    d = {k: v for k, v in d.items() if v != 0}
+    if not d:
+        return Int(w, signed, val=c, tags=tags)
+    return Int(w, signed, bits=[TOP] * w, tags=tags, aff=aff_pack(d, c))
+
+
+def aff_binop(op, a, b):
+    base = op.replace("Unchecked", "")
+    fa, fb = aff_of(a), aff_of(b)
+    if base in ("Add", "Sub"):
+        if fa is None or fb is None:
+            return None
+        d = dict(fa[0])
+        sgn = 1 if base == "Add" else -1
+        for k, v in fb[0].items():
+            d[k] = d.get(k, 0) + sgn * v
+        return aff_pack(d, fa[1] + sgn * fb[1])
+    if base == "Mul":
+        for x, y in ((fa, fb), (fb, fa)):
+            if x is not None and y is not None and not y[0]:
+                return aff_pack({k: v * y[1] for k, v in x[0].items()}, x[1] * y[1])
+        return None
+    if base == "Shl" and fa is not None and fb is not None and not fb[0] and 0 <= fb[1] < 64:
+        m = 1 << fb[1]
+        return aff_pack({k: v * m for k, v in fa[0].items()}, fa[1] * m)
+    # non-linear use of an affine operand: a derived atom, so that equal expressions stay recognisably equal
+    if fa is not None and fb is not None and (fa[0] or fb[0]) and base in ("Shr", "Div", "Rem", "BitAnd", "Shl", "Mul"):
+        name = "(%s %s %s)" % (aff_str(fa), base, aff_str(fb))
+        return aff_pack({name: 1}, 0)
+    return None
+
+
 def binop(op, a, b):
     """returns Int (or tuple for WithOverflow ops handled by caller)"""
+    r = _binop(op, a, b)
+    if isinstance(r, Int) and not r.is_conc() and op not in ("Eq", "Ne", "Lt", "Le", "Gt", "Ge") and (a.aff is not None or b.aff is not None):
+        af = aff_binop(op, a, b)
+        if af is not None:
+            if not af[0]:
+                return Int(r.w, r.signed, val=af[1], kind=r.kind)
+            r.aff = af
+    return r
+
+
+def _binop(op, a, b):
     w = a.w
     mask = (1 << w) - 1
     if op in ("Add", "AddUnchecked", "Sub", "SubUnchecked", "Mul", "MulUnchecked"):
@@ -300,6 +386,17 @@ def binop(op, a, b):
 
 def compare(op, a, b):
     """three-valued comparison: True / False / None"""
+    if (a.aff is not None or b.aff is not None) and not (a.is_conc() and b.is_conc()):
+        fa, fb = aff_of(a), aff_of(b)
+        if fa is not None and fb is not None:
+            d = dict(fa[0])
+            for k, v in fb[0].items():
+                d[k] = d.get(k, 0) - v
+            d = {k: v for k, v in d.items() if v != 0}
+            if not d:
+                c = fa[1] - fb[1]
+                return {"Eq": c == 0, "Ne": c != 0, "Lt": c < 0, "Le": c <= 0, "Gt": c > 0, "Ge": c >= 0}[op]
+        return None
     if a.is_conc() and b.is_conc():
         x, y = (a.sval(), b.sval()) if a.signed else (a.val, b.val)
         return {"Eq": x == y, "Ne": x != y, "Lt": x < y, "Le": x <= y, "Gt": x > y, "Ge": x >= y}[op]
@@ -364,9 +461,9 @@ def cast(a, w, signed, kind="int"):
         return Int(w, signed, val=v, kind=kind)
     bits = list(a.getbits())
     if w <= a.w:
-        return Int(w, signed, bits=bits[:w], kind=kind)
+        return Int(w, signed, bits=bits[:w], kind=kind, aff=a.aff)
     fill = bits[-1] if a.signed else ZERO
-    return Int(w, signed, bits=bits + [fill] * (w - a.w), kind=kind)
+    return Int(w, signed, bits=bits + [fill] * (w - a.w), kind=kind, aff=a.aff)
 
 
 def popcount_terms(a):
